@@ -13,6 +13,7 @@
 From Coq Require Import List.
 Import ListNotations.
 Require Import ZV.Model.GenShape ZV.Proofs.GenShapeProofs ZV.Model.Lexer.
+Require ZV.Model.Reader ZV.Properties.C13.
 
 Theorem gen_total : forall omacro oinfix ofile fuel xs s,
   load omacro oinfix ofile fuel xs <> RCrash s.
@@ -34,6 +35,13 @@ Print Assumptions gen_no_latent.
 Theorem lex_total : forall s r, exists s', lex_rune s r = LOk s' \/ lex_rune s r = LErr s'.
 Proof. exact lex_rune_total. Qed.
 Print Assumptions lex_total.
+
+(* the reader (Model/Reader.v, proved for C13): no text, parser state or model flag reaches one of the
+   panic sites of parser.go (CBlockComment, CBacktick, CIndex, CUintSlice); re-exported *)
+Theorem read_total : forall strict cfix fuel p text,
+  fst (ZV.Model.Reader.observe (ZV.Model.Reader.parse_after strict cfix fuel p text)) <> ZV.Model.Reader.StCrash.
+Proof. exact ZV.Properties.C13.read_total. Qed.
+Print Assumptions read_total.
 
 (* non-vacuity: ordinary forms generate, malformed ones are errors, not crashes *)
 Example ex_include_improper : load_deferred 10 [w_include] = RErr.      (* (include ([] \ 1)) *)
